@@ -2,6 +2,7 @@ package main
 
 import (
 	"bufio"
+	"bytes"
 	"encoding/json"
 	"fmt"
 	"os"
@@ -458,6 +459,32 @@ func genCodecDecT(g *Gen, w *bufio.Writer, t *fTables) {
 					emit("plain", append(append([]byte{}, b...), g.Bytes(1+g.Intn(3))...))
 				}
 			}
+			// the same element header again and again with a declared length just above its maximum, at the type's maximum and
+			// (two-octet lengths) in between, nothing behind it: the first one is an error; a decoder that carries on instead
+			// allocates for every repetition
+			for i := range m.DecOpt {
+				s := &m.DecOpt[i]
+				if s.Half || s.LenSize == 0 || s.Store != "buf" {
+					continue
+				}
+				_, hi := s.bounds()
+				for _, l := range []int{hi + 1, s.typeMax(), (hi + 1 + s.typeMax()) / 2} {
+					if l > s.typeMax() || l <= hi {
+						continue
+					}
+					hd := []byte{byte(s.Iei)}
+					if s.LenSize == 2 {
+						hd = append(hd, byte(l>>8), byte(l))
+					} else {
+						hd = append(hd, byte(l))
+					}
+					reps := 64
+					if g.Tier == "thorough" || i%4 == 0 {
+						reps = (69000 - len(base)) / len(hd)
+					}
+					emit("plain", append(append([]byte{}, base...), bytes.Repeat(hd, reps)...))
+				}
+			}
 			// reordered / duplicated / unknown optional elements
 			for r := 0; r < 6; r++ {
 				b := append([]byte{}, base...)
@@ -593,69 +620,12 @@ func genCodecEncT(g *Gen, w *bufio.Writer, t *fTables) {
 	// number exactly 256, 256 + L_i - 1 or 512 (one later element stretched to fit), so that a count narrowed to 8 bits is
 	// smaller than L_i although everything is present.
 	wraps := func(fam string, d *fDispatch, c fCase, m *fMsg) {
-		for i := range m.DecOpt {
-			si := &m.DecOpt[i]
-			if si.Half || si.LenSize == 0 {
-				continue
-			}
-			loI, hiI := si.bounds()
-			lens := []int{loI}
-			if si.Guard.Kind == "oneOf" {
-				lens = si.Guard.L
-			} else if hiI > loI {
-				lens = append(lens, min(hiI, loI+7))
-			}
-			for _, li := range lens {
-				for _, extra := range []int{256, 256 + li - 1, 512} {
-					if li == 0 {
-						continue
-					}
-					man := mandatory(g, m, c.Const, d.TypeIndex, epdOf(fam))
-					opt := make([]*ieVal, len(m.DecOpt))
-					vi := si.value(g, li, true)
-					opt[i] = &vi
-					rest := li
-					for j := i + 1; j < len(m.DecOpt); j++ {
-						sj := &m.DecOpt[j]
-						lj := 0
-						if sj.LenSize > 0 {
-							lo, hi := sj.bounds()
-							if sj.Guard.Kind == "oneOf" {
-								lj = sj.Guard.L[0]
-							} else {
-								lj = lo + g.Intn(min(hi-lo, 4)+1)
-							}
-						}
-						v := sj.value(g, lj, true)
-						opt[j] = &v
-						rest += len(sj.render(v, true))
-					}
-					if rest > extra {
-						continue
-					}
-					done := rest == extra
-					for j := len(m.DecOpt) - 1; j > i && !done; j-- {
-						sj := &m.DecOpt[j]
-						if sj.Half || sj.LenSize == 0 || sj.Guard.Kind == "oneOf" || sj.Store != "buf" || !sj.Alloc {
-							continue
-						}
-						_, hi := sj.bounds()
-						if opt[j].ln+extra-rest <= hi {
-							v := sj.value(g, opt[j].ln+extra-rest, true)
-							opt[j] = &v
-							done = true
-						}
-					}
-					if !done {
-						continue
-					}
-					wire := renderMsg(m, man, opt)
-					fmt.Fprintf(w, "enc %s hdr=%s %s %s\n", fam, hexs(wire[:d.HeaderLen]), m.Name, fieldsStr(man, opt))
-					fmt.Fprintf(w, "canon %s\n", hexs(wire))
-					fmt.Fprintf(w, "dec plain %s\n", hexs(wire))
-				}
-			}
-		}
+		wrapMessages(g, m, c.Const, d.TypeIndex, epdOf(fam), []int{256, -256, 512, 65536, -65536}, func(man []ieVal, opt []*ieVal) {
+			wire := renderMsg(m, man, opt)
+			fmt.Fprintf(w, "enc %s hdr=%s %s %s\n", fam, hexs(wire[:d.HeaderLen]), m.Name, fieldsStr(man, opt))
+			fmt.Fprintf(w, "canon %s\n", hexs(wire))
+			fmt.Fprintf(w, "dec plain %s\n", hexs(wire))
+		})
 	}
 	for _, d := range t.Dispatch {
 		d := d
@@ -692,6 +662,79 @@ func genCodecEncT(g *Gen, w *bufio.Writer, t *fTables) {
 		m := &t.Messages[i]
 		for r := 0; r < 4; r++ {
 			one("msg", nil, fCase{}, m, func(int) bool { return g.Intn(2) == 0 })
+		}
+	}
+}
+
+// wrapMessages builds, for every lengthed optional element i of m, well-formed messages in which the octets that follow i's
+// length field number exactly T (targets > 0) or |T| + L_i - 1 (targets < 0), by stretching later elements; see genCodecEncT.
+func wrapMessages(g *Gen, m *fMsg, typ, ti, epd int, targets []int, emit func(man []ieVal, opt []*ieVal)) {
+	for i := range m.DecOpt {
+		si := &m.DecOpt[i]
+		if si.Half || si.LenSize == 0 {
+			continue
+		}
+		loI, hiI := si.bounds()
+		lens := []int{loI}
+		if si.Guard.Kind == "oneOf" {
+			lens = si.Guard.L
+		} else if hiI > loI {
+			lens = append(lens, min(hiI, loI+7))
+		}
+		for _, li := range lens {
+			if li == 0 {
+				continue
+			}
+			for _, tg := range targets {
+				extra := tg
+				if tg < 0 {
+					extra = -tg + li - 1
+				}
+				man := mandatory(g, m, typ, ti, epd)
+				opt := make([]*ieVal, len(m.DecOpt))
+				vi := si.value(g, li, true)
+				opt[i] = &vi
+				rest := li
+				for j := i + 1; j < len(m.DecOpt); j++ {
+					sj := &m.DecOpt[j]
+					lj := 0
+					if sj.LenSize > 0 {
+						lo, hi := sj.bounds()
+						if sj.Guard.Kind == "oneOf" {
+							lj = sj.Guard.L[0]
+						} else {
+							lj = lo + g.Intn(min(hi-lo, 4)+1)
+						}
+					}
+					v := sj.value(g, lj, true)
+					opt[j] = &v
+					rest += len(sj.render(v, true))
+				}
+				if rest > extra {
+					continue
+				}
+				done := rest == extra
+				for j := len(m.DecOpt) - 1; j > i && !done; j-- {
+					sj := &m.DecOpt[j]
+					if sj.Half || sj.LenSize == 0 || sj.Guard.Kind == "oneOf" || sj.Store != "buf" || !sj.Alloc {
+						continue
+					}
+					_, hi := sj.bounds()
+					add := extra - rest
+					if opt[j].ln+add > hi {
+						add = hi - opt[j].ln // stretch this one as far as it goes, the next one takes the remainder
+					}
+					if add > 0 {
+						v := sj.value(g, opt[j].ln+add, true)
+						opt[j] = &v
+						rest += add
+					}
+					done = rest == extra
+				}
+				if done {
+					emit(man, opt)
+				}
+			}
 		}
 	}
 }
@@ -828,6 +871,23 @@ func genSpecMsg(g *Gen, w *bufio.Writer, m *fMsg, typ, ti, epd int) {
 			v.data = v.data[:v.ln]
 		}
 		return v
+	}
+	if typ >= 0 {
+		wrapMessages(g, m, typ, ti, epd, []int{-256, -65536}, func(man []ieVal, opt []*ieVal) {
+			sm := make([]ieVal, len(man))
+			for i := range man {
+				sm[i] = specVal(&m.DecMan[i], man[i])
+			}
+			so := make([]*ieVal, len(opt))
+			for i := range opt {
+				if opt[i] != nil {
+					v := specVal(&m.DecOpt[i], *opt[i])
+					so[i] = &v
+				}
+			}
+			fmt.Fprintf(w, "senc %s %s\n", m.Name, fieldsStr(sm, so))
+			fmt.Fprintf(w, "sdec %s %s\n", m.Name, hexs(renderMsg(m, man, opt)))
+		})
 	}
 	reps := g.N
 	for r := 0; r < reps; r++ {
